@@ -41,8 +41,8 @@ def scenarios(env, offset):
 
     out = []
 
-    def add(name, traced, expr, table=None, key=None, threads=(2, 3), wide=False, mixed=None, post=None):
-        out.append(dict(name=name, traced=traced, expr=expr, table=table, key=key, threads=threads, wide=wide, mixed=mixed, post=post))
+    def add(name, traced, expr, table=None, key=None, threads=(2, 3), wide=False, mixed=None, post=None, may_raise=()):
+        out.append(dict(name=name, traced=traced, expr=expr, table=table, key=key, threads=threads, wide=wide, mixed=mixed, post=post, may_raise=may_raise))
 
     add("Dimension(exponents)", NEW, lambda n: (lambda: Dimension(dim_exps(n))), Dimension._known, lambda n: dim_exps(n))
     add("Length**k", DIMOPS, lambda n: (lambda: Length ** (2000 + offset + n)))
@@ -129,6 +129,36 @@ def scenarios(env, offset):
         return [named, anon] if k == 2 else [anon, named, (lambda: Unit(m.IdentityPrefix, {Meter: e}, dim))]
     add("Unit declared vs anonymous", UNITOPS | DIMOPS, lambda n: (lambda: Meter ** (35000 + offset + n)), mixed=named_unit, wide=True,
         post=lookups(lambda n: [("Unit._by_name", Unit._by_name, uname(n)[0]), ("Unit._by_symbol", Unit._by_symbol, uname(n)[1])]))
+    # a declaration that is *refused* (symbol with a space, a name or symbol that belongs to something else) racing
+    # with anonymous constructions of the same object: the refused thread raises ValueError, every other thread and
+    # every later evaluation still gets one object
+    def refused_unit(n, k):
+        e = 36000 + offset + n
+        dim = Length ** e
+        bad = (lambda: Unit(m.IdentityPrefix, {Meter: e}, dim, f"c20refused{offset + n}", rng_symbol(n)))
+        anon = (lambda: Meter ** e)
+        return [bad, anon] if k == 2 else [anon, bad, (lambda a=Meter ** (e - 1): a * Meter)]
+
+    def rng_symbol(n):
+        return ["bad symbol", "m", "7 m"][n % 3]
+    add("Unit refused declaration vs anonymous", UNITOPS | DIMOPS | {"Unit._check_alias"}, lambda n: (lambda: Meter ** (36000 + offset + n)), mixed=refused_unit, wide=True,
+        may_raise=(ValueError,))
+
+    def refused_prefix(n, k):
+        e = 37000 + offset + n
+        bad = (lambda: Prefix(47, e, name="kilo", symbol=f"c20q{offset + n}") if n % 2 else Prefix(47, e, name=f"c20refusedp{offset + n}", symbol="k"))
+        anon = (lambda: Prefix(47, e))
+        return [bad, anon] if k == 2 else [anon, bad, (lambda a=Prefix(47, e - 1), b=Prefix(47, 1): a * b)]
+    add("Prefix refused declaration vs anonymous", PFX, lambda n: (lambda: Prefix(47, 37000 + offset + n)), Prefix._known, lambda n: (47, 37000 + offset + n),
+        mixed=refused_prefix, may_raise=(ValueError,))
+
+    def refused_dim(n, k):
+        ex = tuple([0, 0, 0, 38000 + offset + n] + [0] * (width - 4))
+        bad = (lambda: Dimension(ex, name="length", symbol="L"))
+        anon = (lambda: Dimension(ex))
+        return [bad, anon] if k == 2 else [anon, bad, (lambda: Dimension(ex))]
+    add("Dimension refused declaration vs anonymous", NEW, lambda n: (lambda: Dimension(tuple([0, 0, 0, 38000 + offset + n] + [0] * (width - 4)))), Dimension._known,
+        lambda n: tuple([0, 0, 0, 38000 + offset + n] + [0] * (width - 4)), mixed=refused_dim, may_raise=(ValueError,))
     return out
 
 
@@ -170,12 +200,16 @@ def run(ctx):
                     ctx.count("watchdog_fired")
                     return
                 case = {"scenario": label, "schedule": [c for c, _, _ in run.choices], "trace_head": [list(t) for t in run.trace[:40]]}
-                if run.errors:
-                    e = next(iter(run.errors.values()))
+                refused = {t: e for t, e in run.errors.items() if isinstance(e, sc["may_raise"])} if sc["may_raise"] else {}
+                other = {t: e for t, e in run.errors.items() if t not in refused}
+                if other:
+                    e = next(iter(other.values()))
                     ctx.violation(f"C20:thread-raised:{type(e).__name__}:{sc['name']}", f"{label}: a thread raised {type(e).__name__}: {e}", case)
                     return
+                if refused:
+                    ctx.count("refused_declarations_in_a_race", len(refused))
                 objs = [run.results[t] for t in sorted(run.results)]
-                if len(objs) < len(run.funcs):
+                if len(objs) + len(refused) < len(run.funcs) or not objs:
                     ctx.count("incomplete_runs")
                     return
                 if any(o is not objs[0] for o in objs):
